@@ -346,7 +346,7 @@ func strLen(L *LState) int {
 
 func strLower(L *LState) int {
 	str := L.CheckString(1)
-	L.Push(LString(strings.ToLower(str)))
+	L.Push(LString(strMapASCII(str, 'A', 'Z', 'a'-'A')))
 	return 1
 }
 
@@ -426,8 +426,27 @@ func strSub(L *LState) int {
 
 func strUpper(L *LState) int {
 	str := L.CheckString(1)
-	L.Push(LString(strings.ToUpper(str)))
+	L.Push(LString(strMapASCII(str, 'a', 'z', 'A'-'a')))
 	return 1
+}
+
+// strMapASCII shifts the bytes in [lo, hi] by delta and leaves every other
+// byte untouched, like toupper/tolower do in the "C" locale (the string is a
+// byte sequence, not UTF-8 text).
+func strMapASCII(str string, lo, hi byte, delta int) string {
+	var buf []byte
+	for i := 0; i < len(str); i++ {
+		if c := str[i]; c >= lo && c <= hi {
+			if buf == nil {
+				buf = []byte(str)
+			}
+			buf[i] = byte(int(c) + delta)
+		}
+	}
+	if buf == nil {
+		return str
+	}
+	return string(buf)
 }
 
 func luaIndex2StringIndex(str string, i int, start bool) int {
